@@ -185,6 +185,8 @@ class Budget(Exception): pass
 class Unmodelled(Exception): pass
 
 class Exec:
+    wrap_aware = False
+
     def __init__(self, db, monitor):
         self.db = db; self.mon = monitor; self.steps = 0; self.maxsteps = 400000; self.max_loop_states = 3000; self.t0 = None; self.maxwall = 60.0; self.widen = True
         self.depth = 0
@@ -452,6 +454,12 @@ class Exec:
             lo, hi = st.facts.get(a.id, [None, None])
             d = b if op == '+' else -b
             if d == 0: return a
+            if d > 0 and hi is None and self.wrap_aware and lo is not None and lo >= 0:
+                # an unsigned value with no upper bound whatsoever (a number read from the input, an unconstrained parameter): value + d may wrap around,
+                # so nothing relates the sum to the value.  Counters that are bounded by the available size or by another quantity keep their relation.
+                cl = st.closure()
+                if not any(x == a.id and c is not None for (x, y), c in cl.items() if y != a.id):
+                    return st.sym(0, None)
             n = st.sym(None if lo is None else lo + d, None if hi is None else hi + d)
             st.zadd(n.id, a.id, d); st.zadd(a.id, n.id, -d)
             return n
